@@ -2,7 +2,8 @@
    Only statements; every proof is `exact <lemma>`; examples by computation. *)
 From Coq Require Import List ZArith NArith QArith Qcanon Bool Arith String.
 From Dimod Require Import Base.Util Model.Poly Model.Comb Model.Ser Model.ChkC11
-  Model.Coo Model.NdArr Proofs.CombPack Proofs.SerFacts Proofs.CoeffSound Proofs.SerVec Proofs.CooFacts Proofs.NdArrFacts.
+  Model.Coo Model.NdArr Proofs.CombPack Proofs.SerFacts Proofs.CoeffSound Proofs.SerVec Proofs.CooFacts Proofs.NdArrFacts
+  Model.InfoSer Proofs.InfoSerFacts Model.CooNum Proofs.CooNumFacts.
 Import ListNotations.
 
 (* ================================================================== *)
@@ -199,6 +200,59 @@ Theorem C11_flatten_reshape :
     Forall (fun row => List.length row = c) (reshape2 A r c flat).
 Proof. exact flatten_reshape. Qed.
 Print Assumptions C11_flatten_reshape.
+
+(* ================================================================== *)
+(* serialize_ndarrays / deserialize_ndarrays: the walk over `info`, descending into mappings and
+   sequences, for any array type whose document round trips (C11_ndarray_roundtrip_1d, _2d) *)
+
+Theorem C11_info_roundtrip :
+  forall (A D : Type) (ser_arr : A -> D) (de_arr : D -> A), (forall a, de_arr (ser_arr a) = a) ->
+    forall t, user_ok A D t = true ->
+      InfoSer.deserialize A D de_arr (InfoSer.serialize A D ser_arr t) = Some (norm A D t).
+Proof. exact info_roundtrip. Qed.
+Print Assumptions C11_info_roundtrip.
+
+Theorem C11_info_roundtrip_exact :
+  forall (A D : Type) (ser_arr : A -> D) (de_arr : D -> A), (forall a, de_arr (ser_arr a) = a) ->
+    forall t, user_ok A D t = true -> no_bool A D t = true ->
+      InfoSer.deserialize A D de_arr (InfoSer.serialize A D ser_arr t) = Some t.
+Proof. exact info_roundtrip_exact. Qed.
+Print Assumptions C11_info_roundtrip_exact.
+
+(* findings, as statements about the faithful model: a user mapping carrying type = 'array' is taken
+   for an array document (raises, or silently becomes an array); a bool comes back as an int *)
+Theorem C11_info_type_marker_refuted :
+  forall (A D : Type) (ser_arr : A -> D) (de_arr : D -> A),
+    (InfoSer.deserialize A D de_arr (InfoSer.serialize A D ser_arr (TDict A D [(type_key, TStr A D array_tag)])) = None) /\
+    (forall d, InfoSer.deserialize A D de_arr
+                 (InfoSer.serialize A D ser_arr (TDict A D [(type_key, TStr A D array_tag); (payload_key, TDoc A D d)]))
+               = Some (TArr A D (de_arr d))).
+Proof. exact info_type_marker_refuted. Qed.
+Print Assumptions C11_info_type_marker_refuted.
+
+Theorem C11_info_bool_refuted :
+  forall (A D : Type) (ser_arr : A -> D) (de_arr : D -> A),
+    InfoSer.deserialize A D de_arr (InfoSer.serialize A D ser_arr (TDict A D [("flag"%string, TBool A D true)]))
+    = Some (TDict A D [("flag"%string, TInt A D 1)]).
+Proof. exact info_bool_refuted. Qed.
+Print Assumptions C11_info_bool_refuted.
+
+(* ================================================================== *)
+(* COO numerals: float('%f' % b) = b for every bias with at most six decimals (b = m / 10^6);
+   the integer part goes through its real decimal string *)
+
+Theorem C11_fmt_f_roundtrip : forall m : Z, read_f (fmt_f m) = Some m.
+Proof. exact fmt_f_roundtrip. Qed.
+Print Assumptions C11_fmt_f_roundtrip.
+
+Theorem C11_fmt_f_shape :
+  forall m : Z, List.length (f_frac (fmt_f m)) = 6%nat /\ Forall (fun d => (0 <= d <= 9)%Z) (f_frac (fmt_f m)).
+Proof. exact fmt_f_shape. Qed.
+Print Assumptions C11_fmt_f_shape.
+
+Example C11_ex_fmt_f :
+  fmt_f (-100250000) = mkFText true "100" [2; 5; 0; 0; 0; 0]%Z /\ read_f (fmt_f (-100250000)) = Some (-100250000)%Z.
+Proof. vm_compute. split; reflexivity. Qed.
 
 (* ================================================================== *)
 (* hypotheses are satisfiable on non-trivial data *)
